@@ -57,6 +57,39 @@ pub fn exec_oracle(kind: &str, fields: &[&str]) -> String {
                 "oracle pass".to_string()
             })
         }
+        "S_C14H" => {
+            // one Minimal and one Plain context, the same definitions instantiated in them one after the other (each
+            // context keeps what it instantiated): every one of them is the same operation in both, whatever was
+            // instantiated before it
+            let n: usize = fields[0].parse().unwrap_or(0);
+            let defs: Vec<String> = (0..n).map(|i| unescape(fields[1 + i])).collect();
+            let data = parse_data(fields[1 + n]);
+            let mut m = Minimal::new();
+            let mut p = Plain::new();
+            let mut handles = vec![];
+            for def in &defs {
+                handles.push((m.op(def), p.op(def)));
+            }
+            // (applied after all of them have been instantiated, and in reverse order)
+            for (def, (hm, hp)) in defs.iter().zip(handles.iter()).rev() {
+                match (hm, hp) {
+                    (Ok(hm), Ok(hp)) => {
+                        for fwd in [true, false] {
+                            let dir = || if fwd { Fwd } else { Inv };
+                            let (mut dm, mut dp) = (data.clone(), data.clone());
+                            let nm = m.apply(*hm, dir(), &mut dm).unwrap_or(usize::MAX);
+                            let np = p.apply(*hp, dir(), &mut dp).unwrap_or(usize::MAX);
+                            if nm != np || dm.iter().zip(dp.iter()).any(|(x, y)| !same_bits(x, y)) {
+                                return format!("oracle FAIL {def} (number {} of the history): Minimal and Plain differ in the {} direction", defs.iter().position(|d| d == def).unwrap_or(0), if fwd { "forward" } else { "inverse" });
+                            }
+                        }
+                    }
+                    (Err(_), Err(_)) => {}
+                    _ => return format!("oracle FAIL {def}: instantiable in one of Minimal / Plain only"),
+                }
+            }
+            "oracle pass".to_string()
+        }
         "S_INVMOD" => {
             // the `inv` modifier, behind or in front of the operator's name, exchanges the two directions of the
             // operator - whatever the operator: `def inv` forward is `def` inverse, and the other way round
